@@ -320,7 +320,7 @@ Qed.
 Theorem config_of_exact c n pn :
   config_of c n pn =
   if String.eqb pn "default" then
-    Some {| g_pass := pn; g_defs := n_defs n; g_paths := n_paths n; g_files := n_files n;
+    Some {| g_pass := pn; g_defs := n_defs n; g_paths := base_paths n; g_files := n_files n;
             g_blocks := defined_modes c (dedup (n_modes n)) |}
   else match aget pn (c_passes c) with
        | None => None
@@ -328,7 +328,7 @@ Theorem config_of_exact c n pn :
            let ms := defined_modes c (p_modes p) in
            Some {| g_pass := pn;
                    g_defs := n_defs n ++ p_defs p ++ concat (map m_defs ms);
-                   g_paths := n_paths n ++ p_paths p ++ concat (map m_paths ms);
+                   g_paths := base_paths n ++ p_paths p ++ concat (map m_paths ms);
                    g_files := n_files n ++ p_files p ++ concat (map m_files ms);
                    g_blocks := [] |}
        end.
@@ -409,7 +409,7 @@ Qed.
 
 Theorem modes_exact c n :
   exists g, config_of c n "default" = Some g /\
-    g_defs g = n_defs n /\ g_paths g = n_paths n /\ g_files g = n_files n /\
+    g_defs g = n_defs n /\ g_paths g = base_paths n /\ g_files g = n_files n /\
     exists ms, NoDup ms /\
       (forall m, In m ms <-> In m (n_modes n) /\ exists md, aget m (c_modes c) = Some md) /\
       map Some (g_blocks g) = map (fun m => aget m (c_modes c)) ms.
